@@ -119,8 +119,11 @@ class DequeWorld(World):
         if source == 'plain':
             small_files(self.dir)
             self.d = dc.Deque(items, directory=self.dir, maxlen=maxlen)
-        elif source == 'fanout':
-            self.owner = dc.FanoutCache(self.dir, shards=2)
+        elif source in ('fanout', 'fanout-lru'):
+            extra = {} if source == 'fanout' else {
+                'eviction_policy': 'least-recently-used', 'size_limit': 1000,
+                'cull_limit': 10}
+            self.owner = dc.FanoutCache(self.dir, shards=2, **extra)
             self.d = self.owner.deque('dq', maxlen=maxlen)
             self.d.extend(items)
         else:
@@ -167,6 +170,34 @@ class DequeWorld(World):
             self.d.cache.reset('size_limit', 0)
             self.d.cache.reset('cull_limit', 10)
             got = want = None
+        elif name in ('txn_abort', 'txn_commit'):
+            # a user transaction block around a few operations
+            def run_block():
+                with self.d.transact():
+                    for b in op[1]:
+                        seq_op(self.d, b, False)
+                    if name == 'txn_abort':
+                        raise KeyboardInterrupt
+            try:
+                run_block()
+                got = None
+            except KeyboardInterrupt:
+                got = 'aborted'
+            except Exception as exc:
+                got = Raises(type(exc).__name__)
+            # reference: all or nothing
+            import copy as _copy
+            trial = _copy.deepcopy(self.ref)
+            want = None
+            for b in op[1]:
+                r = call(seq_op, trial, b, True)
+                if isinstance(r, Raises):
+                    want = r
+                    break
+            if want is None and name == 'txn_commit':
+                self.ref = trial
+            elif want is None:
+                want = 'aborted'
         else:
             got = call(seq_op, self.d, op, False)
             want = call(seq_op, self.ref, op, True)
@@ -211,6 +242,9 @@ def alphabet(tier):
            ('list',), ('reversed',), ('len',), ('clear',),
            ('maxlen', None), ('maxlen', 0), ('maxlen', 1), ('maxlen', 2),
            ('reopen',), ('copy',), ('pickle',), ('limit0',),
+           ('txn_abort', (('append', BIG), ('popleft',))),
+           ('txn_abort', (('appendleft', 0),)),
+           ('txn_commit', (('append', BIG), ('appendleft', 'x'))),
            ('eqdeque', (0, 'x'))]
     for i in (-4, -3, -2, -1, 0, 1, 2, 3):
         ops += [('getitem', i), ('delitem', i)]
@@ -263,6 +297,10 @@ class DequeScenario1(DequeScenario):
     maxlen = 1
 
 
+class DequeScenario2(DequeScenario):
+    maxlen = 2
+
+
 def sched_plan(tier):
     A, AL, P, PL = ('append', 'a'), ('appendleft', 'l'), ('pop',), ('popleft',)
     A2 = ('append', 'b')
@@ -277,6 +315,9 @@ def sched_plan(tier):
         (None, [[A], [AL]], init1, None),
         (None, [[('append', BIG)], [PL]], init1, None),
         (1, [[A], [A2]], init1, None),
+        (1, [[A], [A2]], [], None),
+        (2, [[A], [A2]], init1, None),
+        (2, [[A], [AL]], init1, None),
         (1, [[A], [P]], init1, None),
         (1, [[A], [A2], [P]], [], 1 if tier == 'quick' else 2),
         (None, [[A], [P], [PL]], init1, 1 if tier == 'quick' else 2),
@@ -296,7 +337,7 @@ def work(unit):
         part['label'] = 'bfs/%s' % source
         return part
     _, maxlen, programs, init, bound, cap = unit
-    cls = DequeScenario1 if maxlen == 1 else DequeScenario
+    cls = {1: DequeScenario1, 2: DequeScenario2}.get(maxlen, DequeScenario)
     part = sched.explore(lambda: cls(programs, init, 'own'), bound=bound,
                          por=True, time_cap=cap)
     part['label'] = 'sched/maxlen=%s' % maxlen
@@ -315,6 +356,8 @@ def main(tier, seed):
                           cap, ch, nch))
         units.append(('bfs', 2, (0,), 'fanout', depth, tier, seed, cap, ch,
                       nch))
+        units.append(('bfs', None, (0, 'x'), 'fanout-lru', depth, tier, seed,
+                      cap, ch, nch))
         units.append(('bfs', None, ('x', 0), 'django', depth, tier, seed, cap,
                       ch, nch))
     for maxlen, programs, init, bound in sched_plan(tier):
